@@ -1,8 +1,202 @@
+/-
+Driver ops of C02.
+
+A database travels as
+  {"entries": [{"key": s, "orig_type": s, "fields": [[name, value], …],
+                "persons": [[role, [[first…], [middle…], [prelast…], [last…], [lineage…]], …], …]}, …],
+   "preamble": [s, …]}
+and comes back in the same shape (plus "type").  The serialisers are the identity on trees here
+(`yaml` / `xml` steps are `ofDict ∘ toDict`, `ofTree ∘ toTree`), the BibTeX step is
+`parseBib ∘ writeStream` with `encode = encodeLatex`.
+-/
 import PybtexModel.Drv.Json
+import PybtexModel.Model.BibWrite
+import PybtexModel.Spec.BibWrite
 open Lean
 namespace Pybtex.Drv.C02
+open Pybtex.Bib Pybtex.BibWrite
+
+def parsePerson (j : Json) : Except String Person := do
+  let a ← j.getArr?
+  if a.size != 5 then throw "person: five part lists expected"
+  let part (i : Nat) : Except String (List Str) := do (← (a[i]!).getArr?).toList.mapM jsonToStr
+  pure { first := ← part 0, middle := ← part 1, prelast := ← part 2, last := ← part 3, lineage := ← part 4 }
+
+def parseField (j : Json) : Except String (Str × Str) := do
+  let a ← j.getArr?
+  if a.size != 2 then throw "pair expected"
+  pure (← jsonToStr a[0]!, ← jsonToStr a[1]!)
+
+def parseRole (j : Json) : Except String (Str × List Person) := do
+  let a ← j.getArr?
+  if a.size != 2 then throw "role pair expected"
+  pure (← jsonToStr a[0]!, ← (← (a[1]!).getArr?).toList.mapM parsePerson)
+
+def parseEntry (j : Json) : Except String Entry := do
+  let ty ← getStr j "orig_type"
+  pure { key := ← getStr j "key", type := lower ty, origType := ty,
+         fields := ← (← getArr j "fields").mapM parseField,
+         persons := ← (← getArr j "persons").mapM parseRole }
+
+def parseDb (j : Json) : Except String BibData := do
+  pure { entries := ← (← getArr j "entries").mapM parseEntry, preamble := ← getStrList j "preamble" }
+
+def personJ (p : Person) : Json :=
+  arr [strs p.first, strs p.middle, strs p.prelast, strs p.last, strs p.lineage]
+
+def entryJ (e : Entry) : Json :=
+  obj [("key", strToJson e.key), ("type", strToJson e.type), ("orig_type", strToJson e.origType),
+       ("fields", arr (e.fields.map fun f => arr [strToJson f.1, strToJson f.2])),
+       ("persons", arr (e.persons.map fun r => arr [strToJson r.1, arr (r.2.map personJ)]))]
+
+def dbJ (d : BibData) : Json :=
+  obj [("entries", arr (d.entries.map entryJ)), ("preamble", strs d.preamble)]
+
+def errName : WErr → String
+  | .unmatched _ => "BibTeXError"
+  | .tooDeep => "BibTeXError"
+  | .malformed => "MALFORMED"
+  | .nameTooDeep => "BibTeXError"
+
+/-- `bibwrite`: the text of the BibTeX writer -/
+def bibwrite (j : Json) : Except String Json := do
+  let d ← parseDb (← j.getObjVal? "db")
+  let spec := obj [("wf_bibtex", Json.bool (BibWrite.WFDb d))]
+  match writeStream encodeLatex d with
+  | .error e => pure (obj [("out", obj [("error", Json.str (errName e))]), ("spec", spec)])
+  | .ok t => pure (obj [("out", obj [("text", strToJson t)]), ("spec", spec)])
+
+def mkJ : Except NameErr (Person × Bool) → Json
+  | .error _ => obj [("error", Json.str "BibTeXError")]
+  | .ok (p, r) => obj [("person", personJ p), ("too_many_commas", Json.bool r)]
+
+/-- `personfmt`: five part lists → `_format_name`, `__str__`, both re-parsed, and the person built
+from the five part texts (the YAML / BibTeXML path) -/
+def personfmt (j : Json) : Except String Json := do
+  let p ← parsePerson (← j.getObjVal? "person")
+  pure (obj [("out", obj [
+      ("format_name", strToJson (formatName p)),
+      ("str", strToJson (personStr p)),
+      ("reparsed", mkJ (mkPerson (formatName p) [] [] [] [] [])),
+      ("reparsed_str", mkJ (mkPerson (personStr p) [] [] [] [] [])),
+      ("from_parts", mkJ (mkPerson [] (partText p.first) (partText p.middle) (partText p.prelast)
+                            (partText p.last) (partText p.lineage)))]),
+    ("spec", obj [("wf_person", Json.bool (BibWrite.WFPerson p)),
+                  ("wf_core", Json.bool (BibWrite.WFPersonCore p))])])
+
+def readResJ (r : ReadRes) : Json :=
+  obj [("db", dbJ r.db), ("bad_names", strs r.badNames), ("repeated", strs r.repeated),
+       ("others", nat r.others)]
+
+/-- `lowerdb`: `BibliographyData.lower()` -/
+def lowerdb (j : Json) : Except String Json := do
+  let d ← parseDb (← j.getObjVal? "db")
+  let r := dbLower d
+  let distinct (l : List Str) : Bool := (l.map lower).eraseDups.length == l.length
+  let ci := distinct (d.entries.map (·.key)) &&
+    d.entries.all fun e => distinct (e.fields.map (·.1)) && distinct (e.persons.map (·.1))
+  pure (obj [("out", obj [("db", dbJ r.1), ("repeated", strs r.2)]),
+             ("spec", obj [("lowered", dbJ (BibWrite.lowerSpec d)), ("ci_distinct", Json.bool ci),
+                           ("persons_wf", Json.bool (d.entries.all fun e => e.persons.all fun r => r.2.all BibWrite.WFPerson))])])
+
+def parseFmt (j : Json) : Except String Fmt := do
+  match ← j.getStr? with
+  | "bibtex" => pure .bibtex
+  | "yaml" => pure .yaml
+  | "bibtexml" => pure .bibtexml
+  | s => throw s!"unknown format {s}"
+
+/-- one write/read step with identity serialisers -/
+def stepD (f : Fmt) (d : BibData) : Except WErr ReadRes :=
+  match f with
+  | .bibtex =>
+    match writeStream encodeLatex d with
+    | .error e => .error e
+    | .ok text => readFmt ⟨encodeLatex, fun _ => [], fun _ => none, fun _ => [], fun _ => none⟩ .bibtex text
+  | .yaml => ofDictYaml (toDictYaml d)
+  | .bibtexml => ofTreeXml (toTreeXml d)
+
+/-- the chain of `BibWrite.chain`, collecting what every read reports -/
+def chainD (preserve : Bool) : Bool → List Fmt → BibData → List Json → Except WErr (BibData × List Json)
+  | _, [], d, acc => .ok (d, acc)
+  | first, f :: fs, d, acc =>
+    let d := if first || preserve then d else (dbLower d).1
+    match stepD f d with
+    | .error e => .error e
+    | .ok r => chainD preserve false fs r.db (acc ++ [readResJ r])
+
+/-- `convert`: database, chain of formats, preserve_case → the database read back at the end -/
+def convertOp (j : Json) : Except String Json := do
+  let d ← parseDb (← j.getObjVal? "db")
+  let fs ← (← getArr j "chain").mapM parseFmt
+  let preserve ← getBool j "preserve_case"
+  let spec := obj [("wf_bibtex", Json.bool (BibWrite.WFDb d)),
+                   ("wf_yaml", Json.bool (BibWrite.WFDbTree true d)),
+                   ("wf_xml", Json.bool (BibWrite.WFDbTree false d)),
+                   ("lowered", dbJ (BibWrite.lowerSpec d))]
+  match chainD preserve true fs d [] with
+  | .error e => pure (obj [("out", obj [("error", Json.str (errName e))]), ("spec", spec)])
+  | .ok (d', steps) =>
+    pure (obj [("out", obj [("db", dbJ d'),
+                            ("reports", arr (steps.map fun s =>
+                               obj [("bad_names", s.getObjValD "bad_names"), ("repeated", s.getObjValD "repeated"),
+                                    ("others", s.getObjValD "others")]))]),
+               ("spec", spec)])
+
+/-! trees for the reader-only ops -/
+
+def parseY : Nat → Json → Except String YNode
+  | 0, _ => throw "yaml tree too deep"
+  | fuel + 1, j => do
+  match j with
+  | .str s => pure (.str s.toList)
+  | .arr a => do
+    let l ← a.toList.mapM (parseY fuel)
+    pure (.seq l)
+  | .obj _ =>
+    match j.getObjVal? "other" with
+    | .ok t => pure (.other (← jsonToStr t))
+    | .error _ =>
+      let items ← getArr j "map"
+      let l ← items.mapM fun it => do
+        let a ← it.getArr?
+        if a.size != 2 then throw "map item: pair expected"
+        pure ((← jsonToStr a[0]!), (← parseY fuel a[1]!))
+      pure (.map l)
+  | _ => throw "yaml node expected"
+
+/-- `yamlread`: a value tree → YAML `Parser.parse_stream` -/
+def yamlread (j : Json) : Except String Json := do
+  let t ← parseY 64 (← j.getObjVal? "tree")
+  match ofDictYaml t with
+  | .error e => pure (obj [("out", obj [("error", Json.str (errName e))])])
+  | .ok r => pure (obj [("out", readResJ r)])
+
+def parseX : Nat → Json → Except String XNode
+  | 0, _ => throw "xml tree too deep"
+  | fuel + 1, j => do
+  let tag ← getStr j "tag"
+  let id ← match j.getObjVal? "id" with
+    | .ok Json.null => pure none
+    | .ok v => do pure (some (← jsonToStr v))
+    | .error _ => pure none
+  let text ← match j.getObjVal? "text" with
+    | .ok Json.null => pure none
+    | .ok v => do pure (some (← jsonToStr v))
+    | .error _ => pure none
+  let ch ← (← getArr j "children").mapM (parseX fuel)
+  pure (.elem tag id text ch)
+
+/-- `xmlread`: an element tree → BibTeXML `Parser.parse_tree` -/
+def xmlread (j : Json) : Except String Json := do
+  let t ← parseX 64 (← j.getObjVal? "tree")
+  match ofTreeXml t with
+  | .error e => pure (obj [("out", obj [("error", Json.str (errName e))])])
+  | .ok r => pure (obj [("out", readResJ r)])
 
 /-- driver ops of this property: (op name, handler) -/
-def handlers : List (String × (Json → Except String Json)) := []
+def handlers : List (String × (Json → Except String Json)) :=
+  [("bibwrite", bibwrite), ("personfmt", personfmt), ("lowerdb", lowerdb), ("convert", convertOp),
+   ("yamlread", yamlread), ("xmlread", xmlread)]
 
 end Pybtex.Drv.C02
